@@ -100,7 +100,7 @@ def make_ecl_corpus(d, tier):
     put("gen_fmt", 1, EC.encode_formatted(arrs))
     put("gen_unrst", 2, EC.encode_unformatted(arrs[:6] + [{"name": "SEQNUM", "type": "INTE", "data": [2]}] + arrs[1:4]))
     put("gen_funrst", 3, EC.encode_formatted(arrs[:6]))
-    ext_kind = {".EGRID": 4, ".FEGRID": 5, ".UNRST": 2, ".FUNRST": 3, ".RFT": 8, ".INIT": 9, ".FINIT": 1}
+    ext_kind = {".EGRID": 4, ".FEGRID": 5, ".UNRST": 2, ".FUNRST": 3, ".RFT": 8, ".INIT": 9, ".FINIT": 1, ".ESMRY": 10}
     for p in sorted(glob.glob(os.path.join(repo, "tests", "*")) + glob.glob(os.path.join(repo, "tests", "*", "*"))):
         ext = os.path.splitext(p)[1].upper()
         try:
@@ -245,12 +245,13 @@ class C20(Check):
         shutil.rmtree(work, ignore_errors=True)
         os.makedirs(work)
 
-        if replay and os.path.basename(replay).startswith("token__"):
+        if replay and os.path.basename(replay).startswith(("token__", "eclframe__")):
             from checks.c20_token import C20Token
+            from checks.c20_ecl import C20Ecl
             case = json.load(open(replay))["case"]
             build.ensure_probe("san", "deck")
             build.ensure_probe("plain", "deck")      # answers "hang or only slow under the sanitizer?"
-            fails, v = runner.confirm(C20Token(), case, [], 1)
+            fails, v = runner.confirm(C20Token() if os.path.basename(replay).startswith("token__") else C20Ecl(), case, [], 1)
             if fails:
                 print("VIOLATION property=%s replay=%s" % (pid, replay))
                 print("  signature:", v.get("key"))
@@ -387,31 +388,36 @@ class C20(Check):
         import multiprocessing as mp
         os.environ["VERIF_NOBUILD"] = "1"
         nsh = int(os.environ.get("VERIF_SHARDS", 16))
-        targs = [("checks.c20_token", "C20Token", tier, seed, i, nsh, None) for i in range(nsh)]
-        with mp.get_context("fork").Pool(nsh) as pool:
-            tres = pool.map(runner.run_shard, targs)
-        tm = runner.merge(tres)
-        terr = [r[3] for r in tres if r[3]]
-        if terr:
-            print("HARNESS-ERROR property=%s (token part)\n%s" % (pid, terr[0]))
-            return 2
         from checks.c20_token import C20Token
-        tchk = C20Token()
-        token_viols = []
-        for r in tres:
-            for item in r[1]:
-                fails, v = runner.confirm(tchk, item["case"], [], 3)
-                if fails == 3:
-                    token_viols.append((item["case"], v))
-                else:
-                    labels["flaky-token-cases"] = labels.get("flaky-token-cases", 0) + 1
-        for k, v in tm["labels"].items():
-            labels[k] = labels.get(k, 0) + v
-        total_execs += tm["evaluations"]
-        nontrivial_execs += sum(v for k, v in tm["labels"].items() if k.startswith("token:stage:") and not k.endswith("rejected-by-parser"))
-        samples.extend({"target": "token-mutation", "case": s_[1]} for s_ in tm["samples"][:2])
-        stats["token_mutation"] = {"evaluations": tm["evaluations"], "distinct": len(tm["fps"]), "time_cap_hit": tm["timed_out"]}
-        token_distinct = len(tm["fps"])
+        from checks.c20_ecl import C20Ecl
+        token_viols = []        # (prefix of the replay file, case, violation)
+        token_distinct = 0
+        # 2c. frame-mutation part (result files): reference-encoded and shipped files, single-field mutations of the framing
+        for modname, clsname, prefix, statkey, tchk in (("checks.c20_token", "C20Token", "token", "token_mutation", C20Token()),
+                                                        ("checks.c20_ecl", "C20Ecl", "eclframe", "frame_mutation", C20Ecl())):
+            targs = [(modname, clsname, tier, seed, i, nsh, None) for i in range(nsh)]
+            with mp.get_context("fork").Pool(nsh) as pool:
+                tres = pool.map(runner.run_shard, targs)
+            tm = runner.merge(tres)
+            terr = [r[3] for r in tres if r[3]]
+            if terr:
+                print("HARNESS-ERROR property=%s (%s part)\n%s" % (pid, prefix, terr[0]))
+                return 2
+            for r in tres:
+                for item in r[1]:
+                    fails, v = runner.confirm(tchk, item["case"], [], 3)
+                    if fails == 3:
+                        token_viols.append((prefix, item["case"], v))
+                    else:
+                        labels["flaky-%s-cases" % prefix] = labels.get("flaky-%s-cases" % prefix, 0) + 1
+            for k, v in tm["labels"].items():
+                labels[k] = labels.get(k, 0) + v
+            total_execs += tm["evaluations"]
+            nontrivial_execs += sum(v for k, v in tm["labels"].items() if (k.startswith("token:stage:") and not k.endswith("rejected-by-parser"))
+                                    or k == "eclframe:opened")
+            samples.extend({"target": statkey, "case": s_[1]} for s_ in tm["samples"][:2])
+            stats[statkey] = {"evaluations": tm["evaluations"], "distinct": len(tm["fps"]), "time_cap_hit": tm["timed_out"]}
+            token_distinct += len(tm["fps"])
         # 3. verdict
         nviol = 0
         rc = 0
@@ -444,7 +450,7 @@ class C20(Check):
             print("  signature: %s" % sig)
             nviol += 1
             rc = 1
-        for case, v in token_viols:
+        for prefix, case, v in token_viols:
             sig = v.get("key") or "crash"
             if sig in knownsigs:
                 seen_known.add(sig)
@@ -452,7 +458,7 @@ class C20(Check):
             if sig in reported:
                 continue
             reported.add(sig)
-            dst = os.path.join(outdir, "token__%s.json" % runner.sha(case))
+            dst = os.path.join(outdir, "%s__%s.json" % (prefix, runner.sha(case)))
             with open(dst, "w") as f:
                 json.dump({"property": pid, "case": case, "violation": v}, f, indent=1, default=str)
             print("VIOLATION property=%s replay=%s" % (pid, dst))
